@@ -1,0 +1,75 @@
+//go:build verif
+
+// Machine-checked contracts for package flows/routers (comment-only; read by /verif/gocv).
+// C07: routers take the exit their definition prescribes.
+
+package routers
+
+//@ pred catsOK(r *baseRouter) bool := r != nil && (forall k int :: 0 <= k && k < len(r.categories) ==> (!isnil(r.categories[k]) && r.categories[k].(*Category) != nil))
+
+// index of the first category with this UUID
+//@ pred firstCat(r *baseRouter, k int, u flows.CategoryUUID) bool := 0 <= k && k < len(r.categories) && r.categories[k].(*Category).uuid == u && (forall j int :: 0 <= j && j < k ==> r.categories[j].(*Category).uuid != u)
+
+// history token: this router routed to category u with the given match and operand
+//@ pure routedTo(r *baseRouter, u flows.CategoryUUID, match string, operand string, exit flows.ExitUUID) bool
+
+//@ func (r *baseRouter) routeToCategory
+//@   forget getText
+//@   requires catsOK(r) && !isnil(run) && RunRep(run.(*runs.run)) && !isnil(step) && step.(*runs.step) != nil
+//@   ensures [no_category] categoryUUID == "" ==> (result0 == "" && isnil(result1))
+//@   ensures [exit_of_first] (categoryUUID != "" && isnil(result1)) ==> (exists k int :: firstCat(r, k, categoryUUID) && result0 == r.categories[k].(*Category).exitUUID)
+//@   ensures [unknown_category] (categoryUUID != "" && (forall k int :: 0 <= k && k < len(r.categories) ==> r.categories[k].(*Category).uuid != categoryUUID)) ==> !isnil(result1)
+//@   ensures [result_saved] (categoryUUID != "" && isnil(result1) && r.resultName != "") ==> (exists k int :: firstCat(r, k, categoryUUID) && resultSaved(run.(*runs.run), r.resultName, match, r.categories[k].(*Category).name, operand, step.(*runs.step).nodeUUID))
+//@   records isnil(result1) ==> routedTo(r, categoryUUID, match, operand, result0)
+//@ loop 1
+//@   invariant forall j int :: 0 <= j && j <= $i ==> r.categories[j].(*Category).uuid != categoryUUID
+//@   invariant isnil(category)
+
+// ---- switch router
+//@ pred casesOK(r *SwitchRouter) bool := r != nil && (forall k int :: 0 <= k && k < len(r.cases) ==> (r.cases[k] != nil && r.cases[k].CategoryUUID != ""))
+//@ pred matchedV(v types.XValue) bool := typeis(v, *types.XObject) && v.(*types.XObject).Truthy()
+// the test of case k was called on this operand and its result did (not) match
+//@ pred caseTested(r *SwitchRouter, k int, operand types.XValue, m bool) bool := exists res types.XValue, x *types.XFunction {fnCalled(x, operand, res)} :: x == cases.XTESTS[strings.ToLower(r.cases[k].Type)] && fnCalled(x, operand, res) && (matchedV(res) <==> m)
+
+// history token: matchCase on this operand returned (match, category)
+//@ pure caseMatched(r *SwitchRouter, operand types.XValue, match string, cat flows.CategoryUUID) bool
+
+//@ func (r *SwitchRouter) matchCase
+//@   forget getText
+//@   requires casesOK(r) && !isnil(run) && RunRep(run.(*runs.run))
+//@   ensures [first_match] (isnil(result3) && result1 != "") ==> (exists k int :: 0 <= k && k < len(r.cases) && result1 == r.cases[k].CategoryUUID && caseTested(r, k, operand, true) && (forall j int {r.cases[j]} :: 0 <= j && j < k ==> caseTested(r, j, operand, false)))
+//@   witness [first_match] k := $i1 + 1
+//@   ensures [no_match] (isnil(result3) && result1 == "") ==> (forall j int {r.cases[j]} :: 0 <= j && j < len(r.cases) ==> caseTested(r, j, operand, false))
+//@   records isnil(result3) ==> caseMatched(r, operand, result0, result1)
+//@ loop 1
+//@   invariant $i >= 0 ==> caseTested(r, $i, operand, false)
+//@   invariant forall j int {r.cases[j]} :: 0 <= j && j <= $i ==> caseTested(r, j, operand, false)
+//@ loop 2
+//@   invariant len(args) == $i + 2 && args[0] == operand
+//@   invariant forall j int {r.cases[j]} :: 0 <= j && j <= $i1 ==> caseTested(r, j, operand, false)
+
+// Route: the category is the one matchCase picked, else the default category with the operand text as match;
+// the result is whatever routeToCategory returned for it
+//@ func (r *SwitchRouter) Route
+//@   forget getText
+//@   requires casesOK(r) && catsOK(r.baseRouter) && !isnil(run) && RunRep(run.(*runs.run)) && !isnil(step) && step.(*runs.step) != nil
+//@   checks [routed] isnil(result2) ==> (exists m string, cu flows.CategoryUUID, m2 string {caseMatched(r, operand, m, cu), routedTo(r.baseRouter, categoryUUID, m2, result1, result0)} :: caseMatched(r, operand, m, cu) && routedTo(r.baseRouter, categoryUUID, m2, result1, result0) && (cu != "" ==> (categoryUUID == cu && m2 == m)) && ((cu == "" && r.defaultCategoryUUID != "") ==> categoryUUID == r.defaultCategoryUUID) && ((cu == "" && r.defaultCategoryUUID == "") ==> (categoryUUID == "" && result0 == "")))
+//@   checks [operand_text] isnil(result2) ==> result1 == operandAsStr
+//@   ensures [some_category] isnil(result2) ==> (exists cu flows.CategoryUUID, m string {routedTo(r.baseRouter, cu, m, result1, result0)} :: routedTo(r.baseRouter, cu, m, result1, result0))
+
+//@ func (r *baseRouter) RouteTimeout
+//@   forget getText
+//@   requires catsOK(r) && !isnil(run) && RunRep(run.(*runs.run)) && !isnil(step) && step.(*runs.step) != nil
+//@   ensures [no_timeout] (isnil(r.wait) || isnil(r.wait.Timeout())) ==> !isnil(result1)
+//@   ensures [timeout_category] isnil(result1) ==> (exists m string {routedTo(r, r.wait.Timeout().CategoryUUID(), m, "", result0)} :: routedTo(r, r.wait.Timeout().CategoryUUID(), m, "", result0))
+//@ loop 1
+//@   invariant true
+
+// random router: category floor(r*n) for the draw r in [0,1)
+//@ func (r *RandomRouter) Route
+//@   nopanic
+//@   forget getText
+//@   requires r != nil && catsOK(r.baseRouter) && len(r.categories) >= 1 && !isnil(run) && RunRep(run.(*runs.run)) && !isnil(step) && step.(*runs.step) != nil
+//@   checks [floor] isnil(result2) ==> (exists k int, m string {routedTo(r.baseRouter, r.categories[k].(*Category).uuid, m, result1, result0)} :: 0 <= k && k < len(r.categories) && routedTo(r.baseRouter, r.categories[k].(*Category).uuid, m, result1, result0) && toreal(k) <= dec(rand) * toreal(len(r.categories)) && dec(rand) * toreal(len(r.categories)) < toreal(k) + 1)
+//@   witness [floor] k := categoryNum
+//@   ensures [some_category] isnil(result2) ==> (exists cu flows.CategoryUUID, m string {routedTo(r.baseRouter, cu, m, result1, result0)} :: routedTo(r.baseRouter, cu, m, result1, result0))
